@@ -77,6 +77,12 @@ M = {
     "opset-import-order-from-set": (["C12"], [("src/spox/_schemas.py",
         "    grouping = itertools.groupby(sorted(opset_req), key=lambda x: x[0])\n    return {domain: max(v for _, v in group) for domain, group in grouping}",
         "    out: Dict[str, int] = {}\n    for domain, v in opset_req:\n        out[domain] = max(v, out.get(domain, 0))\n    return out")]),
+    "function-order-by-address": (["C12"], [("src/spox/_graph.py",
+        "            functions=list(function_protos.values()),",
+        "            functions=sorted(function_protos.values(), key=id),")]),
+    "sequence-input-elem-dims-dropped": (["C03"], [("src/spox/_public.py",
+        "    return model_proto\n",
+        "    for _i in model_proto.graph.input:\n        if _i.type.HasField('sequence_type'):\n            _i.type.sequence_type.elem_type.tensor_type.ClearField('shape')\n    return model_proto\n")]),
     "renames-restore-to-none": (["C12"], [("src/spox/_public.py",
         "        for arg, name in pre.items():\n            arg._rename(name)",
         "        for arg, name in pre.items():\n            arg._rename(None)")]),
